@@ -12,6 +12,7 @@ mod views;
 mod text;
 mod ettdb;
 mod leapfile;
+mod wrappers;
 
 pub enum Tok {
     Z(i128),
@@ -72,11 +73,16 @@ pub fn pdur(d: Duration) -> String {
 }
 
 fn run(name: &str, a: &Args) -> Option<String> {
-    dur::run(name, a).or_else(|| epoch::run(name, a)).or_else(|| float::run(name, a)).or_else(|| views::run(name, a)).or_else(|| text::run(name, a)).or_else(|| ettdb::run(name, a)).or_else(|| leapfile::run(name, a))
+    dur::run(name, a).or_else(|| epoch::run(name, a)).or_else(|| float::run(name, a)).or_else(|| views::run(name, a)).or_else(|| text::run(name, a)).or_else(|| ettdb::run(name, a)).or_else(|| leapfile::run(name, a)).or_else(|| wrappers::run(name, a))
 }
 
 fn main() {
-    std::panic::set_hook(Box::new(|_| {}));
+    // panics are results, not noise; HF_SHOW_PANIC=1 prints where they come from (debugging aid)
+    if std::env::var("HF_SHOW_PANIC").is_ok() {
+        std::panic::set_hook(Box::new(|i| eprintln!("{i}")));
+    } else {
+        std::panic::set_hook(Box::new(|_| {}));
+    }
     let stdin = std::io::stdin();
     let stdout = std::io::stdout();
     let mut out = std::io::BufWriter::new(stdout.lock());
